@@ -82,7 +82,11 @@ pub(crate) fn get_index(index: f64) -> Result<usize, NativeError> {
 
 #[allow(clippy::cast_possible_truncation, clippy::cast_sign_loss)]
 pub(crate) fn get_string_index(index: f64) -> Result<usize, NativeError> {
-    get_index(index).map(|index| index - STRING_OFFSET as usize)
+    get_index(index).and_then(|index| {
+        index
+            .checked_sub(STRING_OFFSET as usize)
+            .ok_or(NativeError::IndexOutOfBounds(index))
+    })
 }
 
 #[allow(clippy::cast_possible_truncation, clippy::cast_sign_loss)]
